@@ -549,3 +549,27 @@ func init() {
 			"the order assertion is on the stored index keys (bytewise ascending), which by C18 is (index key, primary key) order"},
 	})
 }
+
+func init() {
+	c07 := func(p map[string]int, diff int) HarnessRun {
+		return HarnessRun{Entry: "VerifC07Changes", Params: p, Covers: []string{"C07.delete-delivered", "C07.open-watch", "C07.next-with-writetxn", "C07.partial", "C07.end"}, DiffRuns: diff}
+	}
+	reg(&CheckSpec{
+		ID: "C07", PkgDir: "statedb",
+		Quick:    []HarnessRun{c07(map[string]int{"N": 3, "PRE": 1}, 60), {Entry: "VerifKFNextUncommitted"}},
+		Thorough: []HarnessRun{c07(map[string]int{"N": 4, "PRE": 1}, 60), c07(map[string]int{"N": 3, "PRE": 2, "L": 1}, 60), {Entry: "VerifKFNextUncommitted"}},
+		Known:    []KnownProbe{{ID: "KF-next-uncommitted-deletes", Entry: "VerifKFNextUncommitted"}},
+		Outside: []string{"outside: interleaving with graveyard collection and with other iterators being created/closed (one iterator, no collector runs: see C08); the Observable wrapper; finalizer-driven close; more than N steps after PRE concrete objects; keys longer than L",
+			"steps: write txn (insert/delete, commit/abort) | Next(fresh ReadTxn) fully consumed | Next(open WriteTxn with a pending write) | Next partially consumed (1 element)"},
+	})
+	c19 := func(n, acts, diff int) HarnessRun {
+		return HarnessRun{Entry: "VerifC19Init", Params: map[string]int{"N": n, "ACTS": acts}, Covers: []string{"C19.committed", "C19.aborted", "C19.became-initialized", "C19.end"}, DiffRuns: diff}
+	}
+	reg(&CheckSpec{
+		ID: "C19", PkgDir: "statedb",
+		Quick:    []HarnessRun{c19(3, 2, 60)},
+		Thorough: []HarnessRun{c19(4, 2, 60), c19(5, 1, 60)},
+		Known:    []KnownProbe{},
+		Outside: []string{"outside: the moment a waiter wakes up relative to the committing transaction is covered only by C02's commit observer (channel closed => a fresh ReadTxn shows the table initialized); Derive's job wiring; more than two initializer names; registering the same name twice (panics by contract)"},
+	})
+}
